@@ -334,7 +334,13 @@ fn honest_flaps(r: &mut Rng64, peer: &mut PeerPlan, end_unchoked: bool) {
 pub fn honest_swarm(seed: u64) -> Plan {
     let mut r = Rng64::sub(seed, "honest-swarm");
     let small = r.chance(2, 3);
-    let g = gen_geometry(&mut r, 40, small);
+    let mut g = gen_geometry(&mut r, 40, small);
+    // now and then a torrent with a few hundred tiny pieces (multi-byte bitfields, long end game)
+    if r.chance(1, 16) {
+        let pl = r.range(8, 48);
+        let np = r.range(90, 300);
+        g = simple_geometry(pl, np * pl - r.range(0, pl - 1));
+    }
     let n = g.pieces();
     let mut p = base_plan("honest-swarm", seed, g);
     let calm = r.chance(1, 4);
